@@ -252,6 +252,15 @@ class SyncedList(SyncedCollection, MutableSequence):
         with self._load_and_save, self._suspend_sync:
             self._data.remove(self._from_base(data=value, parent=self))
 
+    def pop(self, index=-1):  # noqa: D102
+        with self._load_and_save:
+            ret = self._data.pop(index)
+        return ret
+
+    def reverse(self):  # noqa: D102
+        with self._load_and_save:
+            self._data.reverse()
+
     def clear(self):  # noqa: D102
         if self._root is None:
             # The root does not load first: clearing is also the way to recover
